@@ -642,8 +642,6 @@ def instrument_modules(modules):
             continue
         _instrumented.add(mod.__name__)
         fname = mod.__file__
-        with open(fname, "rb") as fh:
-            top = compile(fh.read(), fname, "exec")
         # the module's live code objects: functions and methods
         codes = []
         seen = set()
@@ -672,7 +670,6 @@ def instrument_modules(modules):
 
         for v in list(vars(mod).values()):
             visit(v)
-        del top
         for c in codes:
             mon.set_local_events(_TOOL, c, mon.events.LINE)
 
